@@ -98,9 +98,65 @@ def pick(items, ctx, quick_n):
     return r.sample(items, quick_n)
 
 
+_EVERYDAY = None
+
+
+def everyday_corpus():
+    global _EVERYDAY
+    if _EVERYDAY is None:
+        import everyday
+        _EVERYDAY = [(oracles.sha(p), p, "everyday") for p in everyday.EVERYDAY]
+    return _EVERYDAY
+
+
+_IDIOMS = None
+
+
+def idiom_corpus():
+    global _IDIOMS
+    if _IDIOMS is None:
+        import everyday
+        _IDIOMS = [(oracles.sha(p), p, "idiom") for p in everyday.idiom_programs()]
+    return _IDIOMS
+
+
+_EMBEDDED = None
+
+
+def embedded_corpus():
+    """every repository example (the unit-test inputs of the rules) placed where a rewrite has to respect its surroundings: in a function body between two
+    statements, in a method, in an if block after a statement.  For C03 / C04 only (valid in -> valid out by compile(), no crash): the examples are open
+    snippets.  The shape matters: a multi-line replacement inside an indented block with an earlier statement was placed at column 0 (repair 4c4fbbe)."""
+    global _EMBEDDED
+    if _EMBEDDED is None:
+        import ast
+        import textwrap
+
+        out = []
+        for src in oracles.repo_examples():
+            try:
+                tree = ast.parse(src)
+            except (SyntaxError, ValueError, RecursionError):
+                continue
+            if not src.strip() or any(isinstance(n, (ast.Import, ast.ImportFrom, ast.Global, ast.Nonlocal, ast.Return, ast.Yield, ast.YieldFrom, ast.Await)) for n in ast.walk(tree)):
+                continue
+            b1 = textwrap.indent(src.strip("\n"), "    ")
+            b2 = textwrap.indent(src.strip("\n"), "        ")
+            for text in (f"def wrapper_fn():\n    first_stmt = 1\n{b1}\n    return first_stmt\n\n\nprint(wrapper_fn())\n",
+                         f"class Holder:\n    def run(self):\n        first_stmt = 1\n{b2}\n        return first_stmt\n\n\nprint(Holder().run())\n",
+                         f"first_stmt = 1\nif first_stmt:\n    second_stmt = 2\n{b1}\n    print(second_stmt)\n"):
+                try:
+                    compile(text, "<embedded>", "exec")
+                except (SyntaxError, ValueError):
+                    continue
+                out.append((oracles.sha(text), text, "embedded-example"))
+        _EMBEDDED = out
+    return _EMBEDDED
+
+
 def targeted():
     """the family-targeted corpora (12 + 2 + 6 + 6 + 3 + 5 families, and the module-level twins): run in full in both tiers, so that no family depends on the slice"""
-    return generated_corpus2() + generated_corpus3() + generated_corpus4() + generated_corpus5() + twin_corpus()
+    return generated_corpus2() + generated_corpus3() + generated_corpus4() + generated_corpus5() + twin_corpus() + everyday_corpus()
 
 
 OPTION_COMBOS = [
@@ -130,6 +186,8 @@ def behaviour_cases(ctx, quick_n):
         combos = OPTION_COMBOS if (ctx.thorough or sha in tsha) else [OPTION_COMBOS[0], r.choice(OPTION_COMBOS[1:])]
         for o in combos:
             cases.append((sha, src, fam, o))
+    for (sha, src, fam) in pick(idiom_corpus(), ctx, quick_n * 4):
+        cases.append((sha, src, fam, OPTION_COMBOS[0]))
     return cases
 
 
@@ -209,7 +267,7 @@ def rules_suite(ctx, quick_n=120):
     s = Suite("C02-rule-sweep", kind="oracle")
     base = baseline("C02")
     rules = rule_names()
-    items = pick(generated_corpus(), ctx, quick_n) + targeted() + pick(example_corpus(), ctx, quick_n // 2) + observed_examples()
+    items = pick(generated_corpus(), ctx, quick_n) + targeted() + pick(example_corpus(), ctx, quick_n // 2) + observed_examples() + pick(idiom_corpus(), ctx, quick_n * 3)
     results = oracles.pmap(task_rules, [(src, rules, fam == "repo-example") for (_sha, src, fam) in items])
     fired = {}
     for (sha, src, fam), res in zip(items, results):
@@ -299,6 +357,8 @@ def total_cases(ctx, quick_n=150):
         combos = [{}, {"safe": True}, {"keep_imports": True}, {"preserve": ["f"]}] if (ctx.thorough or fam == "adversarial" or sha in tsha) else [r.choice([{}, {"safe": True}, {"keep_imports": True}])]
         for o in combos:
             cases.append((sha, src, fam, o))
+    for (sha, src, fam) in pick(idiom_corpus(), ctx, quick_n * 4) + pick(embedded_corpus(), ctx, quick_n * 3):
+        cases.append((sha, src, fam, {}))
     return cases
 
 
